@@ -30,6 +30,7 @@ type histParams struct {
 	Adversarial  bool `json:"adversarial"`   // C02: named tree + raw header/block events
 	StartUnknown bool `json:"start_unknown"` // start hash is a block the node has not seen at boot (pre-start mode)
 	ExtraDepth int  `json:"extra_depth"`
+	ContractsOnly bool `json:"contracts_only,omitempty"` // contract subscription on, no push data subscribed
 	BlockFetch bool `json:"block_fetch,omitempty"` // C13: apply the block download oracle after every event
 	FailAt int      `json:"fail_at,omitempty"` // the FailAt-th storage operation returns an error
 	Prefix []string `json:"prefix,omitempty"` // events applied after the boot, before the explored history (a non-initial start state)
@@ -428,6 +429,9 @@ func runHist(p histParams, hist []string, withDrain bool) *histRun {
 	if p.Tx {
 		w.SetupTxUniverse()
 		w.cfg.Subscribe = [][]byte{subKey[:]}
+		if p.ContractsOnly {
+			w.cfg.Subscribe = nil // the client subscribes to contract-wide actions only
+		}
 	}
 	if p.Cfg.Untrusted > 0 {
 		w.SetupUntrusted(p.Cfg.Untrusted)
